@@ -1047,6 +1047,35 @@ func runCallOrder(c *core.Ctx) {
 				return true
 			})
 			c.Check(saved, "Call:frame-holds-saved-values", loop.Pos(), "each saved value is stored in the frame", "the saved values are not stored in the frame record")
+			// ... for every state variable: each iteration that goes on to the next variable has read the variable and
+			// put the value into the frame (no early `continue` for locals beyond the arguments)
+			if bb := g.BlockOfStmt(loop, cfg.KindRangeBody); bb != nil {
+				isSave := func(a ast.Node) bool {
+					call, ok := a.(*ast.CallExpr)
+					if !ok {
+						return false
+					}
+					if f := an.CalleeFunc(info, call); f != nil && f.Name() == "Set" && len(call.Args) == 2 {
+						if rn := an.RecvNamed(f); rn != nil && strings.HasSuffix(rn.Obj().Name(), "Builder") {
+							return true
+						}
+					}
+					return false
+				}
+				isRead := func(a ast.Node) bool {
+					for _, r := range reads {
+						if a == r {
+							return true
+						}
+					}
+					return false
+				}
+				c.Check(g.PassesWithinUnlessExit(bb, loop.Body.Pos(), loop.Body.End(), isRead) && g.PassesWithinUnlessExit(bb, loop.Body.Pos(), loop.Body.End(), isSave),
+					"Call:saves-every-state-variable", loop.Pos(), "every iteration reads the state variable and stores it in the frame",
+					"some iteration over the callee's state variables continues without saving the variable into the frame: locals (state variables beyond the arguments) of an outer activation are clobbered by a recursive call and never restored by Return")
+			} else {
+				c.Lost("Call:loop-body", "CFG block of the state-variable loop body not found")
+			}
 			// .pc -> returnPC in the frame
 			pcStored := false
 			ast.Inspect(fn.Body(), func(m ast.Node) bool {
